@@ -44,13 +44,13 @@ def A1_inputs_not_mutated(repo, clause, only=None):
                     ("%s applied to a value that may alias the caller-owned input %s" % (a.how, ", ".join(bad)))
                 obs.append(Ob("A1", clause, f, a.node, ok, detail,
                               construct=a.node if not isinstance(a.node, ast.Call) else a.node,
-                              slot="%s:%s" % (a.how.split(" (")[0], ast.unparse(a.target))))
+                              slot="%s:%s" % (a.how.split(" (")[0], ast.unparse(a.target)), positive=True))
         # summary obligation: the function's own effect summary must not include an input
         muts = sorted(p for p in eff.mut[fn] if p in inputs)
         obs.append(Ob("A1", clause, fn, fn.node, not muts,
                       "effect summary of %s: mutated parameters = %s (inputs %s; %d mutator applications inspected)"
                       % (q, sorted(eff.mut[fn]) or "{}", inputs, napp),
-                      construct="def %s(...)" % fn.name, slot="summary"))
+                      construct="def %s(...)" % fn.name, slot="summary", positive=True))
     return obs
 
 
@@ -79,7 +79,7 @@ def A2_copy_is_deep(repo, clause):
             detail = "returns a shallow copy: arrays are shared with the source"
         else:
             raise AnalysisError("A2: unrecognised shape of Atoms.copy return (%s); deep-copy cannot be decided" % detail)
-        obs.append(Ob("A2", clause, fn, r, ok, detail, slot="return"))
+        obs.append(Ob("A2", clause, fn, r, ok, detail, slot="return", positive=True))
     return obs
 
 
@@ -385,7 +385,7 @@ def A5_overlap_guard(repo, clause):
         v = i.value
         ok = (isinstance(v, ast.Call) and call_name(v) == "set") or isinstance(v, (ast.Set, ast.SetComp))
         obs.append(Ob("A5", clause, fn, i, ok, "running deletion set is a set (each atom listed at most once in the bulk delete)",
-                      slot="set-init"))
+                      slot="set-init", positive=isinstance(v, (ast.List, ast.ListComp, ast.Tuple)) or (isinstance(v, ast.Call) and call_name(v) in ("list", "tuple"))))
     # exception class
     exc = None
     for m in repo.modules.values():
@@ -504,7 +504,7 @@ def A5_overlap_guard(repo, clause):
     if not raises:
         obs.append(Ob("A5", clause, fn, RL.loop, False,
                       "the match loop never raises the dedicated overlap error: overlapping deletions are not refused",
-                      construct="raise AtomsShouldNotBeDeletedTwice()", slot="raise"))
+                      construct="raise AtomsShouldNotBeDeletedTwice()", slot="raise", positive=True))
     for r in raises:
         gs = [g for g in norm_guards(fn, r, stop=RL.loop)]
         rel = [g for g in gs if any(isinstance(x, ast.Name) and x.id == D for x in ast.walk(g[0])) or
@@ -666,7 +666,7 @@ def A6_rotation_gate(repo, clause):
     if len(acc) == 0:
         return [Ob("A6", clause, fn, fn.node, False,
                    "no candidate acceptance is control-dependent on a comparison with the rotated+translated pattern copy `%s`: "
-                   "matches are reported without passing the rotation re-check" % chk, construct="if <re-check>: accepted.append(...)", slot="gated-append")]
+                   "matches are reported without passing the rotation re-check" % chk, construct="if <re-check>: accepted.append(...)", slot="gated-append", positive=True)]
     if len(acc) != 1:
         raise AnalysisError("A6: expected one append gated by the rotation re-check, found %d" % len(acc))
     G = acc[0].func.value.id
@@ -684,6 +684,7 @@ def A6_rotation_gate(repo, clause):
     ge = expand(fn, gate, stop_names=[chk])
     from .common import length_degree
     tol_ok = False
+    tol_positive = False
     tol_detail = "no tolerance found in the re-check"
     closeness_calls = [x for x in ast.walk(ge) if isinstance(x, ast.Call) and call_name(x) in CLOSENESS]
     if closeness_calls:
@@ -691,6 +692,7 @@ def A6_rotation_gate(repo, clause):
         tol = kwarg(cc, "atol")
         tol_ok = tol is not None and isinstance(tol, ast.Name) and tol.id == "atol" and "atol" in fn.params
         tol_detail = "closeness call with atol=%s" % (ast.unparse(tol) if tol is not None else "(library default; positional tolerance is rtol)")
+        tol_positive = not tol_ok
     else:
         cmps = [x for x in ast.walk(ge) if isinstance(x, ast.Compare) and len(x.ops) == 1 and isinstance(x.ops[0], (ast.Lt, ast.LtE, ast.Gt, ast.GtE))]
         for x in cmps:
@@ -702,7 +704,8 @@ def A6_rotation_gate(repo, clause):
                 upper = (x.left is oside[0] and isinstance(x.ops[0], (ast.Lt, ast.LtE))) or (x.left is tside[0] and isinstance(x.ops[0], (ast.Gt, ast.GtE)))
                 tol_ok = dt is not None and do is not None and dt == do and upper
                 tol_detail = "comparison `%s`: deviation has length dimension %s, tolerance side has %s (must agree), upper bound=%s" % (ast.unparse(x)[:70], do, dt, upper)
-    obs.append(Ob("A6", clause, fn, gate, tol_ok, "rotation re-check uses the caller's absolute tolerance: %s" % tol_detail, slot="gate-tolerance"))
+                tol_positive = dt is not None and do is not None and dt != do
+    obs.append(Ob("A6", clause, fn, gate, tol_ok, "rotation re-check uses the caller's absolute tolerance: %s" % tol_detail, slot="gate-tolerance", positive=tol_positive))
     # G is local to one group (initialised inside the group loop, outside the candidate loop)
     ginit = [n for n in fn.own_nodes() if isinstance(n, ast.Assign) and any(isinstance(t, ast.Name) and t.id == G for t in n.targets)]
     ok = bool(ginit) and all(group_loop in list(fn.ancestors(n)) and cand_loop not in list(fn.ancestors(n)) for n in ginit)
@@ -819,16 +822,33 @@ def A6_rotation_gate(repo, clause):
             v = c.args[0]
             sel_ok = False
             sel = None
+            v = expand(fn, v) if isinstance(v, ast.Name) and fn.rd.unique_value(v) is not None and isinstance(fn.rd.unique_value(v)[1], ast.Subscript) else v
+            recognised = False
+
+            def _from_G(sel):
+                sel = expand(fn, sel)
+                return (isinstance(sel, ast.Call) and call_name(sel) == "choice" and sel.args and isinstance(sel.args[0], ast.Name)
+                        and sel.args[0].id == G) or \
+                       (isinstance(sel, ast.Subscript) and isinstance(sel.value, ast.Name) and sel.value.id == G)
             if isinstance(v, ast.Subscript):
-                sel = expand(fn, v.slice)
-                sel_ok = (isinstance(sel, ast.Call) and call_name(sel) == "choice" and sel.args and isinstance(sel.args[0], ast.Name)
-                          and sel.args[0].id == G) or \
-                         (isinstance(sel, ast.Subscript) and isinstance(sel.value, ast.Name) and sel.value.id == G)
+                sel = v.slice
+                vals = None
+                if isinstance(sel, ast.Name):
+                    from verif_sa.dataflow import all_values
+                    vals = all_values(fn, sel)
+                if vals is not None and len(vals) > 1:
+                    sel_ok = all(_from_G(x) for x in vals)
+                    recognised = True
+                else:
+                    sel_ok = _from_G(sel)
+                    recognised = True
                 base = v.value
+            elif isinstance(v, ast.Name):
+                recognised = True      # a bare local (e.g. a stale loop variable), not a selection by an accepted index
             sels.append((c, v, sel, sel_ok))
             obs.append(Ob("A6", clause, fn, c, sel_ok,
                           "value appended to returned list %s is selected by an element of the accepted list %s (%s)"
-                          % (c.func.value.id, G, ast.unparse(v)), slot="result-selected-by-accepted:%s" % ast.unparse(v)))
+                          % (c.func.value.id, G, ast.unparse(v)), slot="result-selected-by-accepted:%s" % ast.unparse(v), positive=recognised))
         lists = {c.func.value.id for c in cs}
         pair_ok = len(cs) == 2 and len(lists) == 2 and all(isinstance(v, ast.Subscript) for _, v, _, _ in sels) and \
             nf(sels[0][1].slice) == nf(sels[1][1].slice)
@@ -909,7 +929,7 @@ def A7_tolerance_provenance(repo, clause, funcs=None):
                     ok = tol is not None and isinstance(expand(f, tol), ast.Name) and expand(f, tol).id == "atol"
                     obs.append(Ob("A7", clause, f, c, ok,
                                   "closeness test uses tolerance %s; must be the caller's atol unchanged"
-                                  % (ast.unparse(tol) if tol is not None else "(library default)"), slot="closeness:%s" % name))
+                                  % (ast.unparse(tol) if tol is not None else "(library default)"), slot="closeness:%s" % name, positive=True))
                 else:
                     callee, kind = repo.effects.resolve(f, c)
                     if callee is not None and "atol" in callee.params and kind is False:
@@ -918,7 +938,7 @@ def A7_tolerance_provenance(repo, clause, funcs=None):
                         obs.append(Ob("A7", clause, f, c, ok,
                                       "call of %s passes atol=%s; must forward the caller's atol"
                                       % (callee.qualname, ast.unparse(a) if a is not None else "(callee default)"),
-                                      slot="forward:%s" % callee.qualname))
+                                      slot="forward:%s" % callee.qualname, positive=True))
     return obs
 
 
@@ -966,10 +986,10 @@ def A1w_who_may_mutate(repo, clause, roots=("replace_pattern_in_structure", "fin
             other = muts - {"self"}
             obs.append(Ob("A1w", clause, fn, fn.node, not other,
                           "method %s (reachable from the read-only entry points) mutates %s; only `self` is allowed" % (fn.qualname, sorted(muts) or "nothing"),
-                          construct="def %s" % fn.name, slot="method"))
+                          construct="def %s" % fn.name, slot="method", positive=True))
         else:
             obs.append(Ob("A1w", clause, fn, fn.node, not muts,
                           "function %s (reachable from the read-only entry points) mutates parameter(s) %s" % (fn.qualname, sorted(muts) or "none"),
-                          construct="def %s" % fn.name, slot="function"))
+                          construct="def %s" % fn.name, slot="function", positive=True))
     floor("A1w", "functions reachable from the read-only entry points", len(obs), 15)
     return obs
